@@ -138,6 +138,7 @@ def r2_stack_effect(ctx):
 
 
 def run(ctx):
+    ctx.guard("C20.REQ", "requirements are checked", lambda: __import__("initspec").check_requires(ctx, "C20"))
     ctx.guard("C20.INIT", "init installs the configured state", lambda: __import__("initspec").check_for(ctx, "C20"))
     ctx.guard("C20.K17", "constructor fidelity", lambda: __import__("ctor").check_for(ctx, "C20", 11))
     ctx.guard("C20.R2", "stack effect", lambda: r2_stack_effect(ctx))
